@@ -628,6 +628,10 @@ fn cfi_rules(rng: &mut Rng, arch: &str) -> String {
         6 => format!("{sp} ^"),
         7 => "$nosuchreg".to_string(),
         8 => format!("{}", (1u64 << 32) + rng.below(1 << 20)),
+        9 if rng.chance(1, 3) => {
+            const EDGE: &[&str] = &["0", "1", "-1", "-9223372036854775808", "9223372036854775807", "4294967296", "-2147483648"];
+            format!("{} {} {}", rng.pick(EDGE), rng.pick(EDGE), rng.pick(&["/", "%", "*", "+", "-", "@"]))
+        }
         _ => format!(".cfa -{} + ^", w),
     };
     let mut s = format!(".cfa: {cfa} .ra: {ra}");
@@ -641,11 +645,18 @@ fn cfi_rules(rng: &mut Rng, arch: &str) -> String {
     };
     for _ in 0..rng.below(4) {
         let r = *rng.pick(saved);
-        let e = match rng.below(6) {
+        let e = match rng.below(7) {
             0 => ".undef".to_string(),
             1 => format!("{r}"),
             2 => format!("{}", rng.next() >> rng.below(64)),
             3 => "1 +".to_string(),
+            // arithmetic at the edges of i64 / u64: every operator on every pair of extreme operands
+            // (a signed or checked reading of an operator panics or differs exactly here)
+            4 => {
+                const EDGE: &[&str] = &["0", "1", "-1", "2", "-2", "-9223372036854775808", "9223372036854775807",
+                    "-9223372036854775807", "4294967296", "-4294967296", "2147483647", "-2147483648", "64", "63"];
+                format!("{} {} {}", rng.pick(EDGE), rng.pick(EDGE), rng.pick(&["/", "%", "*", "+", "-", "@"]))
+            }
             _ => format!(".cfa {} - ^", (2 + rng.below(6)) as i64 * w),
         };
         s.push_str(&format!(" {r}: {e}"));
@@ -945,11 +956,15 @@ pub fn tidy_world(rng: &mut Rng, arch: &str, cfi_share: u64) -> (World, Vec<GFun
     let mut w = World { mods: vec![], syms: vec![], rets: vec![] };
     let mut funcs = vec![];
     let nmods = 1 + rng.below(3);
-    let mut base: u64 = match rng.below(if wide { 4 } else { 3 }) {
+    let arm64 = matches!(arch, "arm64" | "arm64old");
+    let mut base: u64 = match rng.below(if arm64 { 5 } else if wide { 4 } else { 3 }) {
         0 => 0x1_0000 + rng.below(16) * 0x1000,
         1 => 0x40_0000 + rng.below(64) * 0x1_0000,
         2 => 0x7000_0000 + rng.below(0x100) * 0x1_0000,
-        _ => 0x7400_c000_0000u64 + rng.below(64) * 0x10_0000,
+        3 => 0x7400_c000_0000u64 + rng.below(64) * 0x10_0000,
+        // ARM64 only: modules at and above 2^47 (the pointer-authentication mask is derived from the
+        // HIGHEST module end, wherever that module sits in the module list)
+        _ => (1u64 << 47) - 0x8000 * rng.below(2) + rng.below(64) * 0x10_0000 + if rng.chance(1, 2) { 1u64 << 48 } else { 0 },
     };
     for i in 0..nmods as usize {
         let name = format!("m{i}");
@@ -972,6 +987,27 @@ pub fn tidy_world(rng: &mut Rng, arch: &str, cfi_share: u64) -> (World, Vec<GFun
         w.syms.push((name.clone(), recs));
         w.mods.push((base, msize as u32, name));
         base += msize + rng.below(0x10_0000);
+    }
+    // the module LIST need not be in address order (a dump lists modules in load order): half of the
+    // worlds get their modules permuted (indices of the functions follow)
+    if w.mods.len() > 1 && rng.chance(1, 2) {
+        let n = w.mods.len();
+        let mut perm: Vec<usize> = (0..n).collect();
+        for i in (1..n).rev() {
+            let j = rng.below(i as u64 + 1) as usize;
+            perm.swap(i, j);
+        }
+        let mods: Vec<_> = perm.iter().map(|&k| w.mods[k].clone()).collect();
+        let syms: Vec<_> = perm.iter().map(|&k| w.syms[k].clone()).collect();
+        let mut inv = vec![0usize; n];
+        for (newi, &old) in perm.iter().enumerate() {
+            inv[old] = newi;
+        }
+        for f in funcs.iter_mut() {
+            f.module = inv[f.module];
+        }
+        w.mods = mods;
+        w.syms = syms;
     }
     (w, funcs)
 }
